@@ -220,6 +220,7 @@ class Run:
         self.audit_info: dict = {}
         self.checker_cmd = ""
         self.search_batches = 0
+        self.scratch = False
 
     # ---- sizes
     def n(self, quick: int, thorough: int) -> int:
@@ -427,7 +428,12 @@ class Run:
             "violations": violations,
             "repo": str(REPO),
         }
-        (EVIDENCE / f"{self.prop}.json").write_text(json.dumps(ev, indent=1, default=str) + "\n")
+        target = EVIDENCE
+        if self.scratch or REPO != Path("/repo"):
+            # development / mutant runs never overwrite the registered evidence
+            target = REPLAYS / "scratch-evidence"
+            target.mkdir(parents=True, exist_ok=True)
+        (target / f"{self.prop}.json").write_text(json.dumps(ev, indent=1, default=str) + "\n")
 
 
 def shrink_list(items: list, still_bad, max_rounds: int = 200) -> list:
